@@ -33,7 +33,13 @@ def handle (op : String) (a : List String) : Option String :=
         | .ok (r, _), .ok r' => r.stack == r'.stack && r.alt == r'.alt && r.chk.log.length == r'.chk.log.length
         | _, _ => false
       let sig := if ms != ss && sameButLog then "\tcodesep-not-carried" else ""
-      some (ms ++ "\t" ++ ss ++ sig)
+      -- `self`: does the segmented run agree with the uninterrupted run of the same interpreter (stacks, or error class)?
+      -- the property demands `same`; the model says what its own two runs do; the harness what the real ones do
+      let selfSame := match m, single with
+        | .ok (r, _), .ok r' => r.stack == r'.stack && r.alt == r'.alt
+        | .err e, .err e' => e == e'
+        | _, _ => false
+      some (ms ++ (if selfSame then "|self=same" else "|self=differs") ++ "\t" ++ ss ++ "|self=same" ++ sig)
     | _, _, _ => some "bad-request\tbad-request"
   -- c17.break <script> <flags> <break> <oracle>: break at or beyond the end = no break; the reported offset
   | "c17.break", [sc, fl, brk, orc] =>
